@@ -22,7 +22,7 @@ Next ==
      ELSE IF dead THEN UNCHANGED <<g, dead, cnt>>
      ELSE LET ev == Norm(raw)  f == Failing(g, ev) IN
           /\ \A m \in f : Report(ev, m)
-          /\ dead' = (f # {})
+          /\ dead' = (f \ NonFatal # {})
           /\ g' = GNext(g, ev)
           /\ cnt' = [m \in Monitors |-> cnt[m] + IF Ante(m, g, ev) THEN 1 ELSE 0]
   /\ (l = Len(Rec) => PrintT(<<"DONE", l, ToJson(cnt')>>))
